@@ -272,7 +272,7 @@ impl<'a> Gen<'a> {
 			0 => String::new(),
 			1 => "80".into(),
 			2 => "8".into(),
-			3 => "65535".into(),
+			3 => (*self.rng.pick(&["65535", "65536", "0", "00080", "18446744073709551616"])).into(),
 			_ => {
 				let n = self.rng.range(1, 5);
 				(0..n).map(|_| *self.rng.pick(DIGIT) as char).collect()
